@@ -874,7 +874,7 @@ where
                     id,
                     payload,
                     gas_used: 0,
-                    result: SubMsgResult::Err(format!("{:?}", e)),
+                    result: SubMsgResult::Err(format!("{:#}", e)),
                 };
                 self.reply(api, router, storage, block, contract, reply)
             } else {
